@@ -119,7 +119,12 @@ def confront(job):
                 o2 = list(instants)
                 rng.shuffle(o2)
                 orders.append(o2)
-            for order in orders:
+            for oi, order in enumerate(orders):
+                if oi > 0:
+                    # a FRESH source asked in shuffled order (nothing memoised): the answer to a query must not
+                    # depend on which queries came before it
+                    ds = CSVDailyBarDataSource(d, Equity, adjust_prices=adjust, csv_symbols=[SYMBOL])
+                    dh = BacktestDataHandler(None, data_sources=[ds])
                 for t in order:
                     T = ts(t)
                     got = {}
